@@ -302,8 +302,13 @@ class Segment(tuple):
             Copy of the *Apply* segment topology.
         """
 
-        copies = Traversal(self._head).copy(self._tail)
-        return Segment(copies[self._head], copies[self._tail])
+        # pylint: disable=protected-access
+        tail = self._tail
+        while isinstance(tail, atomic.Future) and tail is not self._head and tail._input:
+            (publisher,) = tail._input  # dangling Future tail is just a proxy of the publisher it is registered with
+            tail = publisher._node
+        copies = Traversal(self._head).copy(tail)
+        return Segment(copies[self._head], copies[tail])
 
     def follows(self, other: 'flow.Segment') -> bool:
         """Check this segment follows from the other.
